@@ -15,7 +15,7 @@ RULE = (
     "that contain both domain end points, exact knots and points outside the domain (explicit and default domains, "
     "dyadic and non-dyadic knot spacing); _simulate_basis for every family with/without intercept and normalisation; "
     "orthogonality cases on Gauss-Legendre nodes (Legendre) and uniform full-period grids (Fourier, Wiener); Basis(...) in "
-    "1-D and all 16 2-D family combinations with different sizes per dimension, and isotropic 2-D bases (same family and size, grids of equal "
+    "1-D, all 16 2-D family combinations and 3-D bases (mixed families, different tiny sizes per dimension; also as components of MultivariateBasis) with different sizes per dimension, and isotropic 2-D bases (same family and size, grids of equal "
     "length but different values); boundary sizes n_functions in {degree-1, degree, degree+1} with/without intercept, degree passed or "
     "defaulted; MultivariateBasis; rejected configurations. "
     "A case is non-trivial when the grid has >= 3 points; distinct by content hash"
@@ -149,7 +149,7 @@ def _multi_case(rng: Rng):
     nmin = min(n + (0 if add else 1) for c in comps for f, n in zip(c["fam"], c["n"]) if f == "bsplines")
     p = rng.choice([q for q in (1, 1, 2, 2, 3, 4, None) if (q or 3) < nmin] or [1])
     for c in comps:
-        c["x"] = [[rs(v) for v in _std_grid(rng, f, rng.randint(3, 6))] for f in c["fam"]]
+        c["x"] = [[rs(v) for v in _std_grid(rng, f, rng.randint(3, 6) if len(c["fam"]) < 3 else rng.randint(2, 4))] for f in c["fam"]]
     bsx = [F(v) for c in comps for f, x in zip(c["fam"], c["x"]) if f == "bsplines" for v in x]
     case = dict(kind="multi", comps=comps, p=p, add=add, norm=rng.random() < 0.4, labels=rng.choice(LABEL_SETS))
     if rng.random() < 0.5:  # explicit domain, wider than every B-spline grid
@@ -429,6 +429,17 @@ def run_impl(case):
             out["v"] = np.asarray(b.values).reshape(b.values.shape[0], -1).tolist()
             out["m1"] = _sim(f1, x1, n1, case["norm"], case["add"], **kw).tolist()
             out["m2"] = _sim(f2, x2, n2, case["norm"], case["add"], **kw).tolist()
+    elif kind == "basis3":
+        from FDApy.representation.argvals import DenseArgvals
+        from FDApy.representation.basis import Basis
+
+        kw = _multi_kwargs(case)
+        xs3 = [_arr(x) for x in case["x3"]]
+        arg = DenseArgvals({lb: x for lb, x in zip(_labels(case, 3), xs3)})
+        b = Basis(name=tuple(case["fam"]), n_functions=tuple(case["n"]), argvals=arg, is_normalized=case["norm"], add_intercept=case["add"], **kw)
+        out["shape"] = list(b.values.shape)
+        out["v"] = np.asarray(b.values).reshape(b.values.shape[0], -1).tolist()
+        out["marg"] = [_sim(f, x, n, case["norm"], case["add"], **kw).tolist() for f, n, x in zip(case["fam"], case["n"], xs3)]
     elif kind == "multi":
         from FDApy.representation.argvals import DenseArgvals
         from FDApy.representation.basis import Basis, MultivariateBasis
@@ -504,11 +515,16 @@ def model_lines(case, impl):
         if not (_finite(np.array(impl["m1"])) and _finite(np.array(impl["m2"]))):
             return []  # a marginal function has zero norm on this grid: 0/0 under normalisation
         return [f"b2 {mat([[F(v) for v in r] for r in impl['m1']])} {mat([[F(v) for v in r] for r in impl['m2']])}"]
+    if kind == "basis3":
+        mg = impl["marg"]
+        if not all(_finite(np.array(m_)) for m_ in mg):
+            return []
+        return ["b3 " + " ".join(mat([[F(v) for v in r] for r in m_]) for m_ in mg)]
     if kind == "multi":
         lines = []
         for c, mg in zip(case["comps"], impl["marg"]):
-            if len(c["n"]) == 2 and _finite(np.array(mg[0])) and _finite(np.array(mg[1])):
-                lines.append(f"b2 {mat([[F(v) for v in r] for r in mg[0]])} {mat([[F(v) for v in r] for r in mg[1]])}")
+            if len(c["n"]) >= 2 and all(_finite(np.array(m_)) for m_ in mg):
+                lines.append(f"b{len(mg)} " + " ".join(mat([[F(v) for v in r] for r in m_]) for m_ in mg))
             for f, n, x in zip(c["fam"], c["n"], c["x"]):
                 if f == "bsplines":
                     xs = _Fv(x)
@@ -568,12 +584,15 @@ def compare(case, impl, model):
         if outs[0].startswith("error") != (impl["result"] != "finite"):
             return [f"model says {outs[0][:30]} but the implementation returned {impl['result']}"]
         return []
+    if kind == "basis3":
+        Q = pmat(outs[0])
+        return _cmp_matrix("triple tensor product", impl["v"], Q, lambda i, j: 6 * EPS * abs(float(Q[i][j])) + 1e-300)
     if kind == "multi":
         ds, k = [], 0
         for ci, (c, mg) in enumerate(zip(case["comps"], impl["marg"])):
-            if len(c["n"]) == 2 and _finite(np.array(mg[0])) and _finite(np.array(mg[1])):
+            if len(c["n"]) >= 2 and all(_finite(np.array(m_)) for m_ in mg):
                 Q = pmat(outs[k]); k += 1
-                ds += _cmp_matrix(f"component {ci} (tensor product)", impl["comp"][ci], Q, lambda i, j: 4 * EPS * abs(float(Q[i][j])) + 1e-300)
+                ds += _cmp_matrix(f"component {ci} (tensor product)", impl["comp"][ci], Q, lambda i, j: 6 * EPS * abs(float(Q[i][j])) + 1e-300)
             for mi, (f, n, x) in enumerate(zip(c["fam"], c["n"], c["x"])):
                 if f != "bsplines":
                     continue
@@ -758,6 +777,14 @@ def _oracle_bs_tail(V, xs, a, b, nfun, p, entry, bad, row0):
             return
 
 
+def _tensor(mg):
+    """Row-major tensor product of 1, 2 or 3 marginal value matrices: [prod K, m1, (m2, (m3))]."""
+    if len(mg) == 1:
+        return mg[0]
+    if len(mg) == 2:
+        return np.einsum("ia,jb->ijab", mg[0], mg[1]).reshape(-1, mg[0].shape[1], mg[1].shape[1])
+    return np.einsum("ia,jb,kc->ijkabc", mg[0], mg[1], mg[2]).reshape(-1, mg[0].shape[1], mg[1].shape[1], mg[2].shape[1])
+
 def oracle(case, impl):
     if "__crash__" in impl:
         return [dict(clause="runs", entry=case["kind"], msg=f"crash {impl['__crash__']}: {impl.get('msg')} {impl.get('tb', '')[-300:]}")]
@@ -842,6 +869,19 @@ def oracle(case, impl):
         if not np.allclose(V, want, rtol=1e-14, atol=1e-300, equal_nan=True):
             f, a_, b_ = np.unravel_index(np.abs(V - want).argmax(), V.shape)
             bad("tensor_row_major", f"values[{f},{a_},{b_}] = {V[f, a_, b_]!r} but V1[{f // n2},{a_}]·V2[{f % n2},{b_}] = {want[f, a_, b_]!r}", "Basis")
+    elif kind == "basis3":
+        ns, ms = case["n"], [len(x) for x in case["x3"]]
+        if impl["shape"] != [int(np.prod(ns))] + ms:
+            bad("shape", f"shape {impl['shape']} vs {[int(np.prod(ns))] + ms}", "Basis")
+            return vs
+        V = np.array(impl["v"])
+        want = _tensor([np.array(m_) for m_ in impl["marg"]]).reshape(V.shape[0], -1)
+        if not np.allclose(V, want, rtol=1e-14, atol=1e-300, equal_nan=True):
+            f, t = np.unravel_index(np.nanargmax(np.abs(V - want)), V.shape)
+            i, j, k = f // (ns[1] * ns[2]), f // ns[2] % ns[1], f % ns[2]
+            a, b_, c_ = t // (ms[1] * ms[2]), t // ms[2] % ms[1], t % ms[2]
+            bad("tensor_row_major", f"3-D basis (families {case['fam']}, sizes {ns}): values[{f},{a},{b_},{c_}] = {V[f, t]!r} but "
+                f"V1[{i},{a}]·V2[{j},{b_}]·V3[{k},{c_}] = {want[f, t]!r}", "Basis")
     elif kind == "multi":
         comps = case["comps"]
         if impl["n_functional"] != len(comps):
@@ -859,7 +899,7 @@ def oracle(case, impl):
                 bad("options_forwarded", f"component {ci} (name {c['fam']}) of MultivariateBasis differs from Basis(...) built with the same arguments ({opts})", "MultivariateBasis")
                 break
             mg = [np.array(m_) for m_ in impl["marg"][ci]]
-            want = mg[0] if len(mg) == 1 else np.einsum("ia,jb->ijab", mg[0], mg[1]).reshape(V.shape[0], -1)
+            want = _tensor(mg).reshape(V.shape[0], -1)
             if not np.allclose(V, want, rtol=1e-14, atol=1e-300, equal_nan=True):
                 bad("tensor_row_major", f"component {ci} (name {c['fam']}) is not the (tensor product of the) marginal famil(y/ies) evaluated with the same options ({opts})", "MultivariateBasis")
                 break
@@ -899,6 +939,8 @@ def classify(case, impl):
         tags.append(f"boundary:n-degree={case['n'] - case['p']:+d},intercept={case['add']},degree-passed={case['pass_degree']}")
         if impl and "result" in impl:
             tags.append("boundary-result:" + impl["result"].split(":")[0])
+    if case["kind"] == "basis3":
+        tags.append("basis3:" + "x".join(case["fam"]))
     if case["kind"] == "multi":
         tags.append("multi:dims=" + "+".join(str(len(c["n"])) for c in case["comps"]))
         tags.append(f"multi:degree={case.get('p')},domain={'explicit' if 'dmin' in case else 'default'}")
